@@ -693,3 +693,36 @@ package statedb
 //@   property C06
 //@   flag nosafety
 //@   ensureslocal @covering-watch watch == prefixWatchOf(tree, keyId(key))
+
+// Closing a change iterator (C08, C10): the tracker is removed through a write transaction on its
+// table that is committed on every path (no table lock survives the call), the tracker tree
+// shared with the committed root is never written in place, and the collector is triggered
+// afterwards so that deletions only this iterator was holding back are collected.
+//@ func (*deleteTracker).close
+//@   property C08 C10 C02
+//@   flag nosafety
+//@   maypanic
+//@   flag assumepre=transaction-table-entries-well-formed
+//@   requires dt != nil && (forall a ptr :: !GH_smus[a]) && (dt.db != nil ==> !GH_held[addr(dt.db.mu)])
+//@   atstore Tree requires @shared-tracker-tree-not-written-in-place fresh($p)
+//@   mustcall WriteTxn.Commit@1 when @transaction-committed dt.db != nil
+//@   ensures @no-table-locks-left forall a ptr :: !GH_smus[a]
+//@ func (*WatchSet).Merge
+//@   property C20
+//@   flag nosafety
+//@   requires ws != nil && other != nil && ws != other && ws.chans != nil && other.chans != nil && ws.chans != other.chans && !GH_held[addr(ws.mu)] && !GH_held[addr(other.mu)]
+//@   ensures @sets-stay-separate ws.chans != other.chans && other.chans == old(other.chans)
+//@   ensures @source-unchanged forall c ptr :: has(other.chans, c) <==> old(has(other.chans, c))
+//@   ensures @members-kept forall c ptr :: old(has(ws.chans, c)) ==> has(ws.chans, c)
+//@   ensures @only-source-members-added forall c ptr :: has(ws.chans, c) && !old(has(ws.chans, c)) ==> old(has(other.chans, c))
+//@   ensures @locks-released !GH_held[addr(ws.mu)] && !GH_held[addr(other.mu)]
+//@   loop 1 invariant let m = ws.chans in let o = other.chans in m == old(ws.chans) && o == old(other.chans) && (forall c ptr :: has(o, c) <==> old(has(o, c))) && (forall c ptr :: old(has(m, c)) ==> has(m, c)) && (forall c ptr :: has(m, c) && !old(has(m, c)) ==> old(has(o, c)))
+//@ func (*WatchSet).HasAny
+//@   property C20
+//@   flag nosafety
+//@   requires ws != nil && ws.chans != nil && !GH_held[addr(ws.mu)]
+//@   ensures @membership result ==> (exists i int :: 0 <= i && i < len(chans) && has(ws.chans, chans[i]))
+//@   ensures @unchanged forall c ptr :: has(ws.chans, c) <==> old(has(ws.chans, c))
+//@ func NewWatchSet
+//@   property C20
+//@   ensures @empty result != nil && fresh(result) && result.chans != nil && fresh(result.chans) && (forall c ptr :: !has(result.chans, c))
